@@ -1,6 +1,7 @@
 //! Shared helpers of the verification harness.  Engines are separate binaries under `src/bin/`
 //! (one per engine or engine group, so that they build independently with `cargo build --bin`).
 pub mod chanq;
+pub mod chkalloc;
 pub mod dump;
 pub mod peephole;
 pub mod run;
